@@ -48,10 +48,31 @@ def junk(rng, n, hostile):
 NEAR = [b"12:xx", b"7:", b"12:", b"2000-", b":30", b"T12", b"1-2", b"--", b"20:", b"24:x"]
 
 
-def mk_line(rng, conv, kind):
+def mk_line(rng, conv, kind, mode=None):
     """-> (input line bytes without terminator, expected output line bytes, number of dates)"""
     if kind == "empty":
         return b"", b"", 0
+    if kind == "zoned" and mode in ("ident", "dconv", "dadd", "dgrep"):
+        # a stamp with a numeric UTC offset: the offset belongs to the stamp (the instant is printed in UTC), the bytes
+        # behind it - a colon in particular - do not
+        o = rng.randrange(cal.ORD_MIN + 400, cal.ORD_MAX - 1500)
+        sod = rng.choice([0, 900, 43200, 84600, 86399, rng.randrange(86400)])
+        offm = rng.choice([1, -1]) * rng.choice([0, 60, 90, 150, 330, 345, 600, 840])
+        sgn = "-" if offm < 0 or (offm == 0 and rng.random() < .3) else "+"
+        ztxt = ("%s%02d:%02d" if rng.random() < .6 else "%s%02d%02d") % (sgn, abs(offm) // 60, abs(offm) % 60)
+        hms_ = lambda x: "%02d:%02d:%02d" % (x // 3600, x // 60 % 60, x % 60)
+        u = (o * 86400 + sod) - offm * 60
+        o2, s2 = u // 86400, u % 86400
+        pre = rng.choice([b"", b"see ", b"[", b"log: "])
+        post = rng.choice([b": link up", b":", b" x", b":x", b")", b"", b"; next", b":-"])
+        src = pre + (cal.Day(o).ymd() + "T" + hms_(sod) + ztxt).encode() + post
+        if mode == "dgrep":
+            return src, src, 1
+        res = {"ident": lambda: cal.Day(o2).ymd() + "T" + hms_(s2), "dadd": lambda: cal.Day(o2 + 1).ymd() + "T" + hms_(s2),
+               "dconv": lambda: conv(o2).decode()}[mode]()
+        return src, pre + res.encode() + post, 1
+    if kind == "zoned":
+        kind = "date"
     if kind == "near":
         # a date followed by blank + near-miss text: only the date may be touched
         o = rng.randrange(cal.ORD_MIN + 400, cal.ORD_MAX - 1500)
@@ -85,8 +106,8 @@ def mk_stream(rng, conv, shape, mode=None):
     lines = []
     if shape == "small":
         n = rng.choice([1, 2, 5, 20, 60])
-        kinds = [rng.choice(["date", "date", "two", "junk", "empty", "near"]) for _ in range(n)]
-        lines = [mk_line(rng, conv, k) for k in kinds]
+        kinds = [rng.choice(["date", "date", "two", "junk", "empty", "near", "zoned"]) for _ in range(n)]
+        lines = [mk_line(rng, conv, k, mode) for k in kinds]
     elif shape == "chunk-edge":
         # lines whose ends, dates and CRs fall next to multiples of the 4096 byte read size
         tot = 0
@@ -339,6 +360,36 @@ def stream_task(task):
                            "%s, %d bytes: output under read schedule %s differs from one-read-per-4096 at byte %d (%d vs %d bytes, "
                            "rc %s vs %s)" % (" ".join(argv0), len(data), sc[:80], i, len(r.out), len(base.out), r.rc, base.rc),
                            dict(argv=argv, env={"VERIF_READ_SCHED": sc}, regen=regen, shape=shape), cls=cls0 + (k,))
+            if not big:
+                # a read() that fails after K bytes ends the input there: what had been read is processed like a stream of
+                # exactly those K bytes, no byte of it is lost
+                for kk in sorted(set([rng.randrange(1, len(data) + 1), len(data)] + rng.sample(hazard_cuts(data, rng) or [1], 1))):
+                    if not 0 < kk <= len(data):
+                        continue
+                    with open(path, "rb") as f:
+                        re_ = run(argv, stdin=f, env={"VERIF_READ_SCHED": "all", "VERIF_READ_ERR": str(kk)}, cpu=120, wall=600,
+                                  max_out=len(data) * 2 + (1 << 20))
+                    fd3, path3 = tempfile.mkstemp(dir=TMP, prefix="c18e-")
+                    try:
+                        os.write(fd3, data[:kk])
+                        os.close(fd3)
+                        with open(path3, "rb") as f:
+                            rr = run(argv, stdin=f, env={"VERIF_READ_SCHED": "all"}, cpu=120, wall=600, max_out=len(data) * 2 + (1 << 20))
+                    finally:
+                        os.unlink(path3)
+                    sh.procs += 2
+                    if sh.check_san(re_, "safety", "sed:%s:%s:read-error" % (mode, shape)) or rr.san_kind():
+                        continue
+                    if re_.out == rr.out:
+                        sh.ok("read-error", cls0 + ("read-error", "at-end" if kk == len(data) else "inside"))
+                    else:
+                        i = first_diff(re_.out, rr.out)
+                        sh.bad("read-error", "sed:%s:%s:read-error:%s" % (mode, shape, "short" if len(re_.out) < len(rr.out) else "differs"),
+                               "%s, read() fails after %d of %d bytes: output differs from the output for those %d bytes alone at byte "
+                               "%d (%d vs %d bytes): %r vs %r" % (" ".join(argv0), kk, len(data), kk, i, len(re_.out), len(rr.out),
+                                                                  re_.out[max(0, i - 20):i + 20], rr.out[max(0, i - 20):i + 20]),
+                               dict(argv=argv, env={"VERIF_READ_SCHED": "all", "VERIF_READ_ERR": str(kk)}, regen=regen, shape=shape),
+                               cls=cls0 + ("read-error",))
             if len(data) <= (1 << 16) and rng.random() < .5:
                 # a real pipe fed in pieces with pauses: read() returns what has arrived
                 cuts = hazard_cuts(data, rng, limit=12)
@@ -385,7 +436,7 @@ def main(tier, seed):
                 "line gets its line feed); 'chunking': the same stream under other read() schedules (1..4095 bytes per read, random "
                 "sizes, cuts next to line ends, CRs and multiples of 4096, and a real pipe written in pieces with pauses) gives the same bytes and status as the baseline; shapes: "
                 "small, line ends/dates at 4096 boundaries, lines of 1000..70000 bytes, 16383..40000 lines (line window), 17 MiB (byte "
-                "window), one line of 3 MiB .. 16.75 MB (the window holds 16 MiB less one read), CRLF/mixed/no final line feed, a stream ending inside a date behind 0..32768 equal-length lines, near-miss fragments (12:xx, 7:, 2000-) next to dates; 'final-lf': a stream without final line feed gives the output of the same stream with it; ASan/UBSan on the exact-size window + probe H4 (window offsets ordered, "
+                "window), one line of 3 MiB .. 16.75 MB (the window holds 16 MiB less one read), CRLF/mixed/no final line feed, a stream ending inside a date behind 0..32768 equal-length lines, near-miss fragments (12:xx, 7:, 2000-) next to dates, stamps with a numeric UTC offset followed by ':' or other bytes; 'read-error': a read() failing with EIO after K bytes (injected by the shim) gives the output of a stream of exactly those K bytes; 'final-lf': a stream without final line feed gives the output of the same stream with it; ASan/UBSan on the exact-size window + probe H4 (window offsets ordered, "
                 "bytes out + held == bytes read) on every fill. distinct_nontrivial = distinct (tool, shape, line ends, final "
                 "line feed, schedule kind)")
     ctx.assumptions = ["no single line exceeds the 16 MiB window (such a line is handed out in pieces)", "dates are planted between non-alphanumeric neighbours (2012-01-02b is a business-day spelling)",
